@@ -34,24 +34,29 @@ Qed.
 Section WithMd5.
 Variable md5 : list N -> N.
 
-(* handle_write_fs is handle_write on the resolved slot whenever CreateEntry accepts *)
+(* handle_write_fs is handle_write on the resolved slot whenever neither
+   saveMetaData (append onto a directory) nor CreateEntry refuses *)
 Theorem fs_refines : forall fr st,
   let rq := fr_rq fr in
   let pre := node_entry (target fr st) in
+  append_onto_dir fr st = false ->
   (existing rq pre = None -> create_fails fr st = false) ->
   let r := handle_write_fs md5 fr st in
   fo_status r = fst (handle_write md5 rq pre) /\
   node_entry (slot_after fr st (fo_state r)) = snd (handle_write md5 rq pre) /\
   other_after fr st (fo_state r) = other_after fr st st.
 Proof.
-  intros fr st rq pre Hok r. subst r. unfold handle_write_fs, handle_write. fold rq.
-  unfold existing in Hok.
+  intros fr st rq pre Hnd Hok r. subst r. unfold handle_write_fs, handle_write. fold rq.
+  unfold existing in Hok. unfold append_onto_dir in Hnd. fold rq in Hnd.
   destruct (rq_method rq); cbn [fo_status fo_state fst snd]; try (rewrite slot_same; auto);
   (destruct (ur_failed (upload_of rq)); cbn [fo_status fo_state fst snd]; [rewrite slot_same; auto|];
    unfold save_metadata; fold pre;
    destruct (if rq_append rq then pre else None) as [e|] eqn:Hex;
-   [ destruct (negb (is_nil (e_content e))); cbn [fo_status fo_state fst snd];
-     [rewrite slot_same; auto| rewrite slot_set, other_set; destruct (is_dir (target fr st)); auto]
+   [ assert (Hd : is_dir (target fr st) = false)
+       by (destruct (rq_append rq); [exact Hnd | discriminate Hex]);
+     rewrite Hd;
+     destruct (negb (is_nil (e_content e))); cbn [fo_status fo_state fst snd];
+     [rewrite slot_same; auto| rewrite slot_set, other_set; auto]
    | rewrite (Hok eq_refl); cbn [fo_status fo_state fst snd]; rewrite slot_set, other_set; auto ]).
 Qed.
 
@@ -64,7 +69,8 @@ Proof.
   destruct (rq_method (fr_rq fr)); cbn [fo_status fo_state]; auto;
   (destruct (ur_failed (upload_of (fr_rq fr))); cbn [fo_status fo_state]; auto;
    destruct (if rq_append (fr_rq fr) then node_entry (target fr st) else None) as [e|];
-   [ destruct (negb (is_nil (e_content e))); cbn [fo_status fo_state]; auto; congruence
+   [ destruct (is_dir (target fr st)); cbn [fo_status fo_state]; auto;
+     destruct (negb (is_nil (e_content e))); cbn [fo_status fo_state]; auto; congruence
    | destruct (create_fails fr st); cbn [fo_status fo_state]; auto; congruence ]).
 Qed.
 
@@ -173,52 +179,77 @@ Theorem fs_append_inline_refused : forall fr st e0,
   let rq := fr_rq fr in
   rq_append rq = true -> node_entry (target fr st) = Some e0 -> e_content e0 <> [] ->
   let r := handle_write_fs md5 fr st in
-  fo_status r = Failed /\ fo_state r = st /\ fo_deleted r = [].
+  fo_status r = Failed /\ fo_state r = st /\
+  (is_dir (target fr st) = false -> fo_deleted r = []).
 Proof.
   intros fr st e0 rq Happ Ht Hc r. subst r. unfold handle_write_fs. fold rq.
   rewrite Happ, Ht.
   assert (Hn : negb (is_nil (e_content e0)) = true) by (destruct (e_content e0); [congruence|reflexivity]).
   rewrite Hn.
   destruct (rq_method rq); cbn [fo_status fo_state fo_deleted]; auto;
-    destruct (ur_failed (upload_of rq)); auto.
+    destruct (ur_failed (upload_of rq)); cbn [fo_status fo_state fo_deleted]; auto;
+    destruct (is_dir (target fr st)); cbn [fo_status fo_state fo_deleted]; auto;
+    repeat split; auto; discriminate.
 Qed.
 
-(* ---------- finding 0: ?op=append resolved to a DIRECTORY ---------- *)
+(* ---------- ?op=append resolved to a DIRECTORY (former finding 0, repaired) ---------- *)
 
-(* outside the trigger every 201 leaves a regular FILE under the resolved path *)
-Theorem created_is_file_partial : forall fr st,
-  trigger_append_dir fr st = false ->
+(* every 201 leaves a regular FILE under the resolved path *)
+Theorem created_is_file : forall fr st,
   fo_status (handle_write_fs md5 fr st) = Created ->
   exists e, slot_after fr st (fo_state (handle_write_fs md5 fr st)) = NFile e.
 Proof.
-  intros fr st Htr. unfold trigger_append_dir in Htr. unfold handle_write_fs.
+  intros fr st. unfold handle_write_fs.
   destruct (rq_method (fr_rq fr)); cbn [fo_status fo_state]; try discriminate;
   (destruct (ur_failed (upload_of (fr_rq fr))); cbn [fo_status fo_state]; try discriminate;
-   destruct (rq_append (fr_rq fr)) eqn:Happ; simpl in Htr;
-   [ destruct (node_entry (target fr st)) as [e|] eqn:Hn;
-     [ destruct (negb (is_nil (e_content e))); cbn [fo_status fo_state]; try discriminate;
-       rewrite Htr, slot_set; eauto
-     | destruct (create_fails fr st); cbn [fo_status fo_state]; try discriminate;
-       rewrite slot_set; eauto ]
+   destruct (if rq_append (fr_rq fr) then node_entry (target fr st) else None) as [e|];
+   [ destruct (is_dir (target fr st)); cbn [fo_status fo_state]; try discriminate;
+     destruct (negb (is_nil (e_content e))); cbn [fo_status fo_state]; try discriminate;
+     rewrite slot_set; eauto
    | destruct (create_fails fr st); cbn [fo_status fo_state]; try discriminate;
      rewrite slot_set; eauto ]).
 Qed.
 
-(* inside the trigger (and a body that uploads) the answer is 201 and the bytes
-   hang on the DIRECTORY entry: exact characterisation of the finding *)
-Theorem append_dir_exact : forall fr st e0,
+(* no request, whatever its answer, changes a DIRECTORY entry under either path *)
+Theorem fs_dir_untouched : forall fr st,
+  let st' := fo_state (handle_write_fs md5 fr st) in
+  (is_dir (fs_a st) = true -> fs_a st' = fs_a st) /\
+  (is_dir (fs_b st) = true -> fs_b st' = fs_b st).
+Proof.
+  intros fr st. cbv zeta.
+  assert (Hset : forall n, is_dir (target fr st) = false ->
+            (is_dir (fs_a st) = true -> fs_a (set_target fr st n) = fs_a st) /\
+            (is_dir (fs_b st) = true -> fs_b (set_target fr st n) = fs_b st)).
+  { intros n Hd. unfold target, set_target in *.
+    destruct (redirected fr st); cbn [fs_a fs_b]; split; intro H; try reflexivity; congruence. }
+  unfold handle_write_fs.
+  destruct (rq_method (fr_rq fr)); cbn [fo_state]; auto;
+  (destruct (ur_failed (upload_of (fr_rq fr))); cbn [fo_state]; auto;
+   destruct (if rq_append (fr_rq fr) then node_entry (target fr st) else None) as [e|];
+   [ destruct (is_dir (target fr st)) eqn:Hd; cbn [fo_state]; auto;
+     destruct (negb (is_nil (e_content e))); cbn [fo_state]; auto
+   | destruct (create_fails fr st) eqn:Hcf; cbn [fo_state]; auto;
+     apply Hset; unfold create_fails in Hcf;
+     destruct (target fr st); [reflexivity | reflexivity | discriminate] ]).
+Qed.
+
+(* ?op=append whose resolved path holds a directory (and a body that uploads):
+   reported as failed, nothing committed, exactly the uploaded chunks are handed
+   to DeleteChunks, none is left behind *)
+Theorem fs_append_dir_refused : forall fr st,
   let rq := fr_rq fr in
   rq_method rq <> PostRaw -> ur_failed (upload_of rq) = false ->
-  rq_append rq = true -> target fr st = NDir e0 -> e_content e0 = [] ->
+  append_onto_dir fr st = true ->
   let r := handle_write_fs md5 fr st in
-  fo_status r = Created /\
-  exists e1, slot_after fr st (fo_state r) = NDir e1 /\
-             e_chunks e1 = e_chunks e0 ++ map (shift_chunk (entry_size e0)) (ur_chunks (upload_of rq)).
+  fo_status r = Failed /\ fo_state r = st /\
+  fo_deleted r = ur_chunks (loop_of rq) /\ fo_leaked r = [] /\ fo_replaced r = [].
 Proof.
-  intros fr st e0 rq Hm Hok Happ Ht Hc r. subst r. unfold handle_write_fs. fold rq.
-  rewrite Hok, Happ, Ht. cbn [node_entry is_dir]. rewrite Hc. cbn [is_nil negb].
-  destruct (rq_method rq); try congruence; cbn [fo_status fo_state]; rewrite slot_set;
-    (split; [reflexivity|]; eexists; split; [reflexivity|reflexivity]).
+  intros fr st rq Hm Hok Hap r. subst r. unfold append_onto_dir in Hap. fold rq in Hap.
+  apply andb_prop in Hap. destruct Hap as [Happ Hd].
+  unfold handle_write_fs. fold rq.
+  rewrite Hok, Happ, Hd, (ok_chunks_all rq Hok).
+  destruct (target fr st) as [|e|e]; try discriminate Hd. cbn [node_entry].
+  destruct (rq_method rq); try congruence; repeat split; reflexivity.
 Qed.
 
 End WithMd5.
@@ -263,25 +294,24 @@ Lemma example_leak :
        fo_deleted := []; fo_leaked := [Ck 0 2 [1;2]%N]; fo_replaced := [] |}.
 Proof. vm_compute. split; reflexivity. Qed.
 
-(* finding 0 witness: multipart POST without a file name, ?op=append, onto a directory *)
-Lemma created_is_file_refuted :
-  exists fr st,
-    rq_method (fr_rq fr) <> PostRaw /\ rq_end (fr_rq fr) = Eof /\ no_upfail (rq_upfail (fr_rq fr)) /\
-    trigger_append_dir fr st = true /\
-    fo_status (handle_write_fs (fun _ => 0%N) fr st) = Created /\
-    forall e, slot_after fr st (fo_state (handle_write_fs (fun _ => 0%N) fr st)) <> NFile e.
-Proof.
-  exists (mk_fr (mk_rq PostForm true false 2 0 [1;2;3]%N Eof []) false false false).
-  exists {| fs_a := NDir empty_dir; fs_b := NMissing |}.
-  repeat split; try reflexivity; try discriminate.
-Qed.
+(* the witness of former finding 0: multipart POST without a file name, ?op=append,
+   onto a directory: failed, the directory is untouched, both uploaded chunks deleted *)
+Lemma example_append_dir_refused :
+  let fr := mk_fr (mk_rq PostForm true false 2 0 [1;2;3]%N Eof []) false false false in
+  let st := {| fs_a := NDir empty_dir; fs_b := NMissing |} in
+  rq_method (fr_rq fr) <> PostRaw /\ ur_failed (upload_of (fr_rq fr)) = false /\
+  append_onto_dir fr st = true /\
+  handle_write_fs (fun _ => 0%N) fr st =
+    {| fo_status := Failed; fo_state := st;
+       fo_deleted := [Ck 0 2 [1;2]; Ck 2 1 [3]]%N; fo_leaked := []; fo_replaced := [] |}.
+Proof. vm_compute. repeat split; try reflexivity; discriminate. Qed.
 
-(* the partial theorem is not vacuous: an append onto a FILE reached through a directory redirect *)
+(* an append onto a FILE reached through a directory redirect is accepted *)
 Lemma example_append_redirected :
   let fr := mk_fr (mk_rq Put true false 2 0 [9]%N Eof []) false true false in
   let st := {| fs_a := NDir empty_dir;
                fs_b := NFile {| e_size := 0; e_content := []; e_chunks := [Ck 0 3 [1;2;3]%N]; e_md5 := None |} |} in
-  trigger_append_dir fr st = false /\
+  append_onto_dir fr st = false /\
   handle_write_fs (fun _ => 0%N) fr st =
     {| fo_status := Created;
        fo_state := {| fs_a := NDir empty_dir;
